@@ -44,6 +44,7 @@ def run(F, rep, tier):
     name_span(F, rep)
     parse_error_dropped(F, rep)
     child_span(F, rep)
+    second_definition_is_reported(F, rep)
     import c20
     c20.prelude_yields(F, rep)
 
@@ -878,3 +879,40 @@ def _enclosing_variant(body, target):
                     if v and best == "?":
                         best = last(v)
     return best
+
+
+def second_definition_is_reported(F, rep, rule="DUP-ORDER"):
+    """A duplicate is found when the *second* holder of a name is met: the loop registers each definition in a keyed table and
+    reports the element at which the table already has the name.  For the reported element to be the later definition - the
+    offending one, the first is only the help text - the loop has to meet the definitions in the order the source wrote them:
+    the backward slice of what it iterates passes through no sort and no unordered collection."""
+    import engines
+    n = 0
+    for fn in F.fns_in("sylt_compiler::name_resolution::"):
+        body = fn_body(fn)
+        lets = {}
+        for st in nodes(body, "Let"):
+            if st.get("init") is not None:
+                for b in pat_bindings(st["pat"]):
+                    lets.setdefault(b["hid"], []).append(st["init"])
+        mut = {}
+        for c in nodes(body, "MethodCall"):
+            r = peel(c["recv"])
+            if isinstance(r, dict) and r.get("k") == "Path" and r.get("res") == "Local":
+                mut.setdefault(r["hid"], []).append(c)
+        k_ = 0
+        for lp in nodes(body, "ForLoop"):
+            keyed = [c for c in nodes(lp["body"], "MethodCall") if c["m"] in ("entry", "insert", "contains_key", "contains") and
+                     engines.strip_ty(c.get("recv_ty") or "").startswith(engines.UNORDERED_TYPES)]
+            errs = [x for x in nodes(lp["body"], "Struct") if norm_path(x.get("path") or "").startswith("sylt_common::error::Error::")]
+            if not keyed or not errs:
+                continue
+            n += 1
+            k_ += 1
+            bad = engines._order_slice(lp["iter"], lets, mut)
+            rep.ob(rule, "%s|loop#%d" % (last(fn["_path"], 2), k_), not bad,
+                   "the loop that finds a name defined twice meets the definitions in source order: the one it reports is the later" if not bad else
+                   "the loop in %s that registers names and reports the one it finds taken does not run in source order (%s): of two "
+                   "definitions of one name the *earlier* can be the one reported, with the offending later one demoted to the "
+                   "`first definition is here` note" % (last(fn["_path"], 2), "; ".join(sorted(set(bad)))), line_of(lp))
+    rep.floor(rule, "loops that register names and report collisions", n, 3)
